@@ -260,16 +260,33 @@ class Exec:
 
     def run_prefix(self, entry, prefix, work):
         self.trace = list(prefix); self.pos = 0; self.pc = []; self.work = work; self.steps = 0; self.stack = []
+        self.solver = z3.Solver(); self.solver.set('timeout', self.solver_timeout_ms)
+        self.known = {}; self.cur_model = None; self._keep = []
         try: r = ('ok', entry(self))
         except Panic as p: r = ('panic', {'msg': p.msg, 'where': p.where or (self.stack[-1] if self.stack else None), 'stack': list(self.stack[-6:])})
         except Infeasible: return []
         return [{'prefix': list(self.trace[:self.pos]), 'pc': list(self.pc), 'kind': r[0], 'result': r[1]}]
 
     def assume(self, c):
-        self.pc.append(c)
+        self.pc.append(c); self.solver.add(c); self.cur_model = None
+
+    def _feasible(self, c):
+        """is pc /\ c satisfiable?  (one incremental solver per path; a model of pc is kept and tried first)"""
+        if self.cur_model is not None:
+            try:
+                if z3.is_true(self.cur_model.eval(c, model_completion=True)): return True
+            except z3.Z3Exception: pass
+        self.n_solver += 1; t = time.time()
+        self.solver.push(); self.solver.add(c); r = self.solver.check()
+        m = self.solver.model() if r == z3.sat else None
+        self.solver.pop()
+        self.t_solver += time.time() - t
+        if r == z3.unknown: raise Unsupported('solver returned unknown on a branch query')
+        if m is not None: self.cur_model = m
+        return r == z3.sat
 
     def branch(self, conds):
-        """conds: list of z3 Bool; returns chosen index (forks the others)"""
+        """conds: list of mutually exclusive z3 Bool; returns chosen index (forks the others)"""
         self.n_branches += 1
         if self.pos < len(self.trace):
             i = self.trace[self.pos]
@@ -278,21 +295,33 @@ class Exec:
             feas = []
             for j, c in enumerate(simp):
                 if z3.is_false(c): continue
-                if z3.is_true(c): feas.append(j); break      # a true condition excludes the later ones only if they are exclusive; conds are exclusive by construction
-                if self.sat(self.pc + [c]): feas.append(j)
+                if z3.is_true(c): feas.append(j); break
+                if self._feasible(c): feas.append(j)
             if not feas: raise Infeasible()
             i = feas[0]
             for j in feas[1:]: self.work.append(self.trace[:self.pos] + [j])
             self.trace = self.trace[:self.pos] + [i]
         self.pos += 1
-        self.pc.append(conds[i])
+        c = conds[i]
+        self.pc.append(c); self.solver.add(c)
+        if self.cur_model is not None:
+            try:
+                if not z3.is_true(self.cur_model.eval(c, model_completion=True)): self.cur_model = None
+            except z3.Z3Exception: self.cur_model = None
         return i
 
     def decide(self, cond):
         c = z3.simplify(cond)
         if z3.is_true(c): return True
         if z3.is_false(c): return False
-        return self.branch([c, z3.Not(c)]) == 0
+        neg = False; core = c
+        if z3.is_not(c): core = c.arg(0); neg = True
+        k = core.get_id()
+        v = self.known.get(k)
+        if v is not None: return v != neg
+        r = self.branch([c, z3.Not(c)]) == 0
+        self.known[k] = (r != neg); self._keep = getattr(self, '_keep', []); self._keep.append(core)   # keep the AST alive: ids are reused after GC
+        return r
 
     def sat(self, fs):
         self.n_solver += 1; t = time.time()
